@@ -792,7 +792,7 @@ impl Gen<'_> {
             4 => ".asciz \"unterminated".to_string(),
             5 => (*self.r.pick(&[".unknowndir 4", ".unknowndir \"text\"", ".eqv LIMIT \"ten\""])).to_string(),
             6 => (*self.r.pick(&["li t0, 'ab'", "li a0, '\u{a0}' oops", ".asciz \"a\u{3000}b\u{a0}\" extra", "li a0, '\u{3000}' , , oops t1"])).to_string(),
-            _ => ") stray".to_string(),
+            _ => (*self.r.pick(&[") stray", "t0:", "la a0, \"a\\nb\"", "li a0, '\\n' '\\t'", "sp: addi a0, a0, 1"])).to_string(),
         };
         self.emit(s);
     }
